@@ -338,6 +338,58 @@ func extractHub() {
 	} else {
 		miss("send_commission")
 	}
+	// --- governance cold-storage transfer: what is minted, where to, and the outgoing transfer it becomes
+	if fd := findFunc(fKeeper, "Keeper", "ColdStorageTransfer"); fd != nil {
+		var st []string
+		for _, c := range callsTo(fd.Body, "MintCoins") {
+			st = append(st, src(c))
+		}
+		for _, c := range callsTo(fd.Body, "SendCoinsFromModuleToAccount") {
+			st = append(st, src(c))
+		}
+		for _, n := range collect(fd.Body, func(n ast.Node) bool { a, ok := n.(*ast.AssignStmt); return ok && len(a.Lhs) == 1 && src(a.Lhs[0]) == "vouchers" }) {
+			st = append(st, src(n))
+		}
+		set("cold_mint", strings.Join(st, " | "))
+		var ca []string
+		for _, c := range callsTo(fd.Body, "createSendToExternal") {
+			for i, a := range c.Args {
+				if i == 7 { // the transaction hash (digest of the proposal's bytes) is not part of the model
+					continue
+				}
+				ca = append(ca, src(a))
+			}
+		}
+		set("cold_create_args", strings.Join(ca, " | "))
+		var other []string // any further bank or pool call would be a second effect
+		for _, n := range collect(fd.Body, func(n ast.Node) bool { _, ok := n.(*ast.CallExpr); return ok }) {
+			f := src(n.(*ast.CallExpr).Fun)
+			if strings.HasPrefix(f, "k.") && !strings.HasPrefix(f, "k.get") && f != "k.GetColdStorageAddr" {
+				other = append(other, f)
+			}
+		}
+		set("cold_calls", strings.Join(other, " | "))
+	} else {
+		miss("cold_mint")
+	}
+	if fd := findFunc(fKeeper, "Keeper", "GetColdStorageAddr"); fd != nil {
+		var l []string
+		for _, n := range collect(fd.Body, func(n ast.Node) bool { _, ok := n.(*ast.CaseClause); return ok }) {
+			cc := n.(*ast.CaseClause)
+			var b []string
+			for _, x := range cc.Body {
+				b = append(b, src(x))
+			}
+			var k []string
+			for _, x := range cc.List {
+				k = append(k, src(x))
+			}
+			l = append(l, strings.Join(k, ",")+" => "+strings.Join(b, "; "))
+		}
+		set("cold_addrs", strings.Join(l, " | "))
+	} else {
+		miss("cold_addrs")
+	}
 	if fd := findFunc(fKeeper, "", "convertDecimals"); fd != nil {
 		set("convert_body", src(fd.Body))
 	} else {
